@@ -496,8 +496,8 @@ func TestPeerRejections(t *testing.T) {
 	m.SenderTag++
 	expect("foreign sender tag", "sender-tag-mismatch", m)
 	m = build(DataSpec{Ctr: u64(99)})
-	m.ReceiverTag = 0
-	expect("receiver tag 0 on data", "receiver-tag", m)
+	m.ReceiverTag = 0x4242
+	expect("foreign receiver tag on data", "receiver-tag", m)
 	m = build(DataSpec{Ctr: u64(99)})
 	m.SenderTag = 0xff
 	expect("sender tag below 0x100", "sender-tag", m)
